@@ -1,6 +1,14 @@
 package main
 
-import "strings"
+import (
+	"crypto/tls"
+	"net"
+	"strings"
+	"syscall"
+	"time"
+
+	"github.com/simonvetter/modbus"
+)
 
 func init() { register("C01", scnClientTx) }
 
@@ -49,4 +57,175 @@ func scnClientTx(o *Out, r *Rng, thorough bool) {
 			o.Stat("res:sent")
 		}
 	}
+}
+
+// ------------------------------------------------------------------ all six transports
+//
+// txreal: scheme unit e w op... -> "<socket kind> <first bytes the peer saw | none> <result>"
+// The client is built by NewClient + the real Open() for tcp, udp, tcp+tls,
+// rtu (on a pty), rtuovertcp, rtuoverudp; the loopback peer never answers.
+
+func init() {
+	executors["txreal"] = c01TxReal
+	register("C01", scnTxReal)
+}
+
+func c01TxReal(in []string) (out string) {
+	defer func() {
+		if r := recover(); r != nil {
+			out = "panic"
+		}
+	}()
+	scheme := in[0]
+	cert, pool := c16Creds()
+	conf := &modbus.ClientConfiguration{Timeout: 120 * time.Millisecond, Logger: quiet,
+		TLSClientCert: cert, TLSRootCAs: pool, Speed: 115200}
+
+	type seen struct {
+		kind string
+		data []byte
+	}
+	res := make(chan seen, 4)
+	var cleanup []func()
+	defer func() {
+		for _, f := range cleanup {
+			f()
+		}
+	}()
+	tl, err := net.Listen("tcp", "127.0.0.1:0")
+	if err != nil {
+		return "harness-error:" + err.Error()
+	}
+	cleanup = append(cleanup, func() { tl.Close() })
+	go func() {
+		c, err := tl.Accept()
+		if err != nil {
+			return
+		}
+		defer c.Close()
+		first := c16ReadBurst(c, 1500*time.Millisecond)
+		if len(first) >= 3 && first[0] == 0x16 && first[1] == 0x03 {
+			ts := tls.Server(&c16Replay{Conn: c, pre: first}, &tls.Config{
+				Certificates: []tls.Certificate{*cert}, ClientAuth: tls.RequireAnyClientCert,
+				MinVersion: tls.VersionTLS12})
+			c.SetDeadline(time.Now().Add(3 * time.Second))
+			if err := ts.Handshake(); err != nil {
+				res <- seen{"tls-handshake-failed", nil}
+				return
+			}
+			c.SetDeadline(time.Time{})
+			res <- seen{"tls", c16ReadBurst(ts, 1500*time.Millisecond)}
+			return
+		}
+		res <- seen{"tcp", first}
+	}()
+	var target string
+	switch {
+	case scheme == "rtu":
+		master, slave, err := c16OpenPty()
+		if err != nil {
+			return "skipped:pty"
+		}
+		cleanup = append(cleanup, func() { master.Close() })
+		target = slave
+		go func() {
+			var got []byte
+			buf := make([]byte, 512)
+			deadline := time.Now().Add(1500 * time.Millisecond)
+			fd := int(master.Fd())
+			syscall.SetNonblock(fd, true)
+			quietSince := time.Time{}
+			for time.Now().Before(deadline) {
+				n, err := syscall.Read(fd, buf)
+				if n > 0 {
+					got = append(got, buf[:n]...)
+					quietSince = time.Now()
+				} else if err != nil && err != syscall.EAGAIN && err != syscall.EIO {
+					break
+				}
+				if len(got) > 0 && time.Since(quietSince) > 60*time.Millisecond {
+					break
+				}
+				time.Sleep(2 * time.Millisecond)
+			}
+			res <- seen{"serial", got}
+		}()
+	case strings.Contains(scheme, "udp"):
+		pc, err := net.ListenPacket("udp", "127.0.0.1:0")
+		if err != nil {
+			return "harness-error:" + err.Error()
+		}
+		cleanup = append(cleanup, func() { pc.Close() })
+		target = pc.LocalAddr().String()
+		go func() {
+			buf := make([]byte, 4096)
+			pc.SetReadDeadline(time.Now().Add(1500 * time.Millisecond))
+			n, _, err := pc.ReadFrom(buf)
+			if err != nil {
+				res <- seen{"udp", nil}
+				return
+			}
+			res <- seen{"udp", append([]byte(nil), buf[:n]...)}
+		}()
+	default:
+		target = tl.Addr().String()
+	}
+	conf.URL = scheme + "://" + target
+	mc, err := modbus.NewClient(conf)
+	if err != nil {
+		return "err:" + errClass(err)
+	}
+	if err = mc.Open(); err != nil {
+		return "open-error"
+	}
+	defer mc.Close()
+	mc.SetUnitId(uint8(unhx(in[1])))
+	mc.SetEncoding(modbus.Endianness(atoi(in[2])), modbus.WordOrder(atoi(in[3])))
+	r := callOp(mc, in[4:])
+	wait := 2 * time.Second
+	if r == "err:params" {
+		wait = 250 * time.Millisecond // nothing must arrive
+	}
+	// C01 is about what is transmitted: the result is projected to rejected-locally / sent
+	if r == "err:params" {
+		r = "params"
+	} else if r != "panic" {
+		r = "sent"
+	}
+	kind := map[string]string{"tcp": "tcp", "rtuovertcp": "tcp", "tcp+tls": "tls", "udp": "udp", "rtuoverudp": "udp", "rtu": "serial"}[scheme]
+	select {
+	case s := <-res:
+		if len(s.data) == 0 {
+			return s.kind + " none " + r
+		}
+		return s.kind + " " + hx(s.data) + " " + r
+	case <-time.After(wait):
+		return kind + " none " + r
+	}
+}
+
+func scnTxReal(o *Out, r *Rng, thorough bool) {
+	n := 8
+	if thorough {
+		n = 150
+	}
+	var ins []string
+	for _, scheme := range []string{"tcp", "udp", "tcp+tls", "rtuovertcp", "rtuoverudp", "rtu"} {
+		if scheme == "rtu" && !c16PtyAvailable() {
+			o.Stat("txreal:pty-unavailable")
+			continue
+		}
+		for i := 0; i < n; i++ {
+			unit, e, w := randCfg(r)
+			cls := opValid
+			if i%4 == 3 {
+				cls = opAny
+			}
+			op := randOp(r, cls)
+			// keep transmitted frames within one datagram / pty buffer
+			ins = append(ins, strings.Join(append([]string{scheme, hxi(unit), itoa(e), itoa(w)}, op...), " "))
+			o.Stat("txreal:" + scheme)
+		}
+	}
+	o.RunMany("txreal", ins)
 }
